@@ -225,7 +225,7 @@ func (c *Ctx) RunJob(j Job) *JobResult {
 	if cfg.MaxDepth == 0 {
 		cfg.MaxDepth = 200
 	}
-	ex := &symgo.Explorer{W: c.L.World, Fn: fn, Cfg: cfg, Workers: 16, Solver: sym.Z3Old, MaxPaths: j.MaxPaths, SampleEvery: 50}
+	ex := &symgo.Explorer{W: c.L.World, Fn: fn, Cfg: cfg, Workers: 16, Solver: sym.Z3New, MaxPaths: j.MaxPaths, SampleEvery: 50}
 	if j.Timeout > 0 {
 		ex.Deadline = time.Now().Add(j.Timeout)
 	}
@@ -707,7 +707,7 @@ func (c *Ctx) Finish(level string, assumptions []string, extra map[string]interf
 		"solver_queries":                transitions,
 		"query_cache_hits":              cachehits,
 		"solver_time_s":                 solverTime.Seconds(),
-		"solver":                        "z3 4.8.12 (z3 -in, push/pop, QF_BV terms, no set-logic)",
+		"solver":                        "z3 5.1.0 (z3-new -in, push/pop, QF_BV terms, no set-logic)",
 		"cross_solver":                  xs,
 		"native_replayed":               totalPaths,
 		"functions_encoded":             fnNames,
@@ -773,4 +773,72 @@ func Replay(property, path string) int {
 	}
 	fmt.Printf("VIOLATION property=%s replay=%s\n", property, path)
 	return 1
+}
+
+// SelfTest: corpus differential — every .jst under /repo/testdata is built
+// concretely inside the engine (HCorpus) and natively; observations must agree.
+func SelfTest() int {
+	c, err := NewCtx("SELFTEST", "quick", 1)
+	if err != nil {
+		fmt.Fprintln(os.Stderr, "setup failed:", err)
+		return 2
+	}
+	defer c.Close()
+	fn := c.L.Func(symgo.RepoModule+"/core", "HCorpus")
+	n := 0
+	filepath.Walk(filepath.Join(RepoDir, "testdata"), func(p string, info os.FileInfo, err error) error {
+		if err == nil && !info.IsDir() && strings.HasSuffix(p, ".jst") {
+			n++
+		}
+		return nil
+	})
+	type out struct {
+		status string
+		msg    string
+		obs    []string
+	}
+	res := make([]out, n)
+	var wg sync.WaitGroup
+	idx := make(chan int, n)
+	for i := 0; i < n; i++ {
+		idx <- i
+	}
+	close(idx)
+	for w := 0; w < 16; w++ {
+		wg.Add(1)
+		go func() {
+			defer wg.Done()
+			for i := range idx {
+				cfg := &symgo.Config{MaxSteps: 50000000, MaxDepth: 2000, Params: map[string]int64{"i": int64(i)}}
+				in := symgo.NewInterp(c.L.World, cfg, nil)
+				r := in.Run(fn, nil)
+				res[i] = out{r.Status.String(), r.Msg + " @ " + r.Site, r.Obs}
+			}
+		}()
+	}
+	wg.Wait()
+	c.Log("engine built %d corpus files", n)
+	cases := make([]nativeCase, n)
+	for i := range cases {
+		cases[i] = nativeCase{Harness: "HCorpus", In: map[string]uint64{"param:i": uint64(i)}}
+	}
+	nat, outp, err := c.nativeRun("core", cases, 10*time.Minute)
+	if err != nil {
+		fmt.Fprintln(os.Stderr, "native corpus run failed:", err, outp)
+		return 2
+	}
+	bad := 0
+	for i := range cases {
+		if res[i].status != nat[i].Status || !sameObs(res[i].obs, nat[i].Obs) {
+			bad++
+			if bad <= 200 {
+				fmt.Printf("MISMATCH corpus file #%d: engine %s %s obs=%v\n   native %s %s obs=%v\n", i, res[i].status, firstLine(res[i].msg), res[i].obs, nat[i].Status, firstLine(nat[i].Msg), nat[i].Obs)
+			}
+		}
+	}
+	fmt.Printf("selftest: %d corpus files, %d mismatches\n", n, bad)
+	if bad > 0 {
+		return 2
+	}
+	return 0
 }
